@@ -412,7 +412,7 @@ def run_vec(case):
     n = 0
     outs = set()
     rejects = convs = 0
-    prev = None
+    done = []
     for sub in _subcases(case):
         vs = shared.get(sub['ret'])
         if vs is None:
@@ -422,13 +422,24 @@ def run_vec(case):
         if sig:
             # does a fresh callable show the same?  (otherwise the history matters)
             sig2, detail2, _ = _vec_call(_vectorized(sub), sub)
-            if sig2 is None:
-                return bad('C18:vectorize:history-dependence', {'subs': [prev, sub], 'first': detail}, evals=n)
-            return bad(sig2, detail2)
+            if sig2 is not None:
+                return bad(sig2, detail2)
+            # shortest history: one earlier call of this enumeration that is enough
+            for e in done:
+                if e['ret'] != sub['ret']:
+                    continue
+                v2 = _vectorized(sub)
+                _vec_call(v2, e)
+                if _vec_call(v2, sub)[0]:
+                    return bad('C18:vectorize:history-dependence',
+                               {'witness': {'kind': 'vecseq', 'subs': [e, sub]}, 'after_history': detail})
+            return bad('C18:vectorize:history-dependence',
+                       {'witness': {'kind': 'vec', 'note': 'no single earlier call suffices; replay the pool case'},
+                        'after_history': detail, 'calls_before': n - 1})
         outs.add(od)
         rejects += od.startswith('rej')
         convs += od.startswith('conv')
-        prev = sub
+        done.append(sub)
     r = ok(outcome=digest(sorted(outs)), vec_calls=n, vec_length_rejections=rejects, vec_numpy_refuses_stack=convs,
            vec_distinct_outputs_per_case_sum=len(outs))
     r.update(evals=n, distinct=n)
@@ -470,19 +481,19 @@ def mrow_num(*args, random_state=None, meta=None):
     u = random_state.random_sample()
     c = _row_core(args)
     if meta is not None:
-        c += 100.0 * meta['index_in_batch'] + 1000.0 * meta['batch_index']
+        c += 100.0 * meta.get('index_in_batch', -7) + 1000.0 * meta['batch_index']
     return c + u
 
 
 def mrow_vec(*args, random_state=None, meta=None):
     u = random_state.random_sample()
-    mi, bi = (-1, -1) if meta is None else (meta['index_in_batch'], meta['batch_index'])
+    mi, bi = (-1, -1) if meta is None else (meta.get('index_in_batch', -7), meta['batch_index'])
     return np.array([_row_core(args), u, mi, bi])
 
 
 def mrow_obj(*args, random_state=None, meta=None):
     u = random_state.random_sample()
-    mi, bi = (-1, -1) if meta is None else (meta['index_in_batch'], meta['batch_index'])
+    mi, bi = (-1, -1) if meta is None else (meta.get('index_in_batch', -7), meta['batch_index'])
     return {'c': _row_core(args), 'u': u, 'mi': mi, 'bi': bi}
 
 
@@ -610,9 +621,9 @@ def run_model(case):
         if ret == 'num':
             if case['meta']:
                 c += 100.0 * mi + 1000.0 * b2
-            rows.append(c + u[r])
+            rows.append(c + float(u[r]))
         elif ret == 'vec':
-            rows.append(np.array([c, u[r], mi, b2]))
+            rows.append(np.array([c, float(u[r]), mi, b2]))
         else:
             rows.append({'c': c, 'u': float(u[r]), 'mi': mi, 'bi': b2})
     detail = {'case': case}
@@ -1031,9 +1042,9 @@ def run(ctx):
         full = ['py', 'pyint', 'a0', 'v', 'vi', 'm2', 'm1', 'list', 'tuple', 'str', 'none', 'vlong', 'v1']
         std = dict(bs=[1, 2, 3, 4], rets=['num', 'int', 'vec2', 'dict', 'ragged', 'str', 'none'],
                    kws=['none', 'meta', 'rs', 'extra', 'all'])
-        plan = {0: dict(std, kinds=['py']), 1: dict(std, kinds=full), 2: dict(std, kinds=full),
+        plan = {0: dict(std, kinds=['py']), 1: dict(std, kinds=full), 2: dict(std, kinds=full, bs=[1, 2, 3]),
                 3: dict(kinds=['py', 'a0', 'v', 'vi', 'm2', 'list', 'vlong'], bs=[1, 2, 3],
-                        rets=['num', 'vec2', 'dict', 'ragged'], kws=['none', 'meta', 'all']),
+                        rets=['num', 'vec2', 'ragged'], kws=['none', 'meta', 'all']),
                 4: dict(kinds=['py', 'v', 'm2', 'vlong'], bs=[1, 2], rets=['num', 'vec2'], kws=['none', 'all'])}
         dts = ['None', 'float', 'int', 'object', 'False', 'float32', 'str']
     cases = []
@@ -1076,6 +1087,8 @@ def run(ctx):
     temps = _templates(q)
     forms = ['echo', 'printf-comma'] if q else ['echo', 'echo-wide', 'printf-comma', 'printf-comma-nl', 'printf-semi',
                                                  'printf-space']
+    # thorough: a second set of positional values (numpy scalar, 0-d array) for the non-integer types, `echo` form
+    posv_forms = ['echo']
     xdts = ['None', 'int8', 'float'] if q else ['None', 'int8', 'float', 'int64', 'float32', 'np:int32', 'np:float64']
     cases = []
     skipped = 0
@@ -1088,7 +1101,7 @@ def run(ctx):
                         continue
                     c = {'kind': 'ext', 'tokens': toks, 'form': form, 'dtype': dt, 'mode': mode,
                          'seed': base + ti % 4}
-                    if not q and not _is_int(dt):
+                    if not q and not _is_int(dt) and form in posv_forms:
                         for pv in ('a', 'b'):
                             cases.append(dict(c, posv=pv))
                     else:
